@@ -21,14 +21,16 @@ pub mod h_c03;
 pub mod h_decoders;
 pub mod h_inputs;
 pub mod h_steps;
+pub mod h_derive;
 pub mod w_stubs;
 pub mod h_wire;
 
 /// all harnesses reachable from this module (the child modules in opaque.rs / envelope.rs /
 /// tripledh.rs register theirs through `child_tables`)
-pub fn tables() -> [&'static [(&'static str, fn())]; 10] {
+pub fn tables() -> [&'static [(&'static str, fn())]; 11] {
     [
         h_lemmas::TABLE,
+        h_derive::TABLE,
         h_lemmas::TABLE2,
         h_wire::TABLE,
         h_steps::TABLE,
